@@ -271,7 +271,6 @@ def delete (sch : Schema) : Nat → ObjId → St → Res
   | 0, _, st => .err .recursionError st
   | fuel + 1, o, st =>
     if !st.store.alive o then .ok st else                                    -- status in del_statuses: return
-    let st := st.log (.status o true)                                        -- undo_funcs.append(undo_func)
     let attrs := sch.attrsOf (st.store.ent o)
     let colls := iter (fun (c : Attr) (st : St) =>
         match sch.side c, sch.side (sch.rev c) with
@@ -297,7 +296,9 @@ def delete (sch : Schema) : Nat → ObjId → St → Res
               else .err .constraintError st                                  -- Cannot delete: has associated
             else reverseRemove (sch.rev a) [x] o st
         | _, _ => .err .noSuchAttr st) attrs)
-    refs.bind fun st => .ok (st.setStore (st.store.setAlive o false))        -- cancelled / marked_to_delete
+    refs.bind fun st =>
+      if !st.store.alive o then .ok st                                       -- a nested _delete_ of this object already finished
+      else .ok ((st.setStore (st.store.setAlive o false)).log (.status o true))   -- undo registered only now; cancelled / marked_to_delete
 
 /-! ## 8. Top-level calls -/
 
